@@ -71,5 +71,32 @@ def main():
         got = v2[r["id"]]["v"]
         ok = ok and got == want
         print("Conform %-34s expected %-9s got %-9s %s" % (r["id"], want, got, "ok" if got == want else "NOT REJECTED"))
+    # the small relation / layout modules: a recorded answer changed, a field read with the wrong signedness
+    good = {"id": "as-recorded", "lt": "F", "gt": "F", "le": "F", "ge": "F", "eq": "F", "ne": "T",
+            "sw": {"lt": "F", "gt": "F", "le": "F", "ge": "F", "eq": "F", "ne": "T"}}
+    bad1 = dict(good, id="ge-answer-changed", ge="T")
+    bad2 = dict(good, id="refused-one-way-only", sw={"lt": "E", "gt": "E", "le": "E", "ge": "E", "eq": "F", "ne": "T"})
+    v3, _ = core.tlc_validate("OpLawTrace", [good, bad1, bad2], workers=1)
+    for r in (good, bad1, bad2):
+        want = "ok" if r["id"] == "as-recorded" else "bad"
+        got = v3[r["id"]]["v"]
+        ok = ok and got == want
+        print("OpLaw   %-34s expected %-9s got %-9s %s" % (r["id"], want, got, "ok" if got == want else "NOT REJECTED"))
+    import struct
+    raw = list(struct.pack("<IHHiIII", 0xa1b2c3d4, 2, 4, -3600, 0, 65535, 1))
+
+    def field(n, signed=False):
+        return {"k": "int", "neg": n < 0, "mag": list(abs(n).to_bytes(8, "little"))}
+    hobs = {"magic": field(0xa1b2c3d4), "major": field(2), "minor": field(4), "thiszone": field(-3600), "sigfigs": field(0),
+           "snaplen": field(65535), "linktype": field(1)}
+    recs4 = [{"id": "as-recorded", "raw": raw, "obs": hobs, "how": "ok"},
+             {"id": "thiszone-read-unsigned", "raw": raw, "obs": dict(hobs, thiszone=field(4294963696)), "how": "ok"},
+             {"id": "snaplen-off-by-one", "raw": raw, "obs": dict(hobs, snaplen=field(65534)), "how": "ok"}]
+    v4, _ = core.tlc_validate("PcapHdrTrace", recs4, workers=1)
+    for r in recs4:
+        want = "ok" if r["id"] == "as-recorded" else "bad"
+        got = v4[r["id"]]["v"]
+        ok = ok and got == want
+        print("PcapHdr %-34s expected %-9s got %-9s %s" % (r["id"], want, got, "ok" if got == want else "NOT REJECTED"))
     print("selftest %s" % ("passed" if ok else "FAILED"))
     return 0 if ok else 1
